@@ -104,7 +104,8 @@ def random_cmd(rnd):
         op = rnd.choice(["aa55", "aa55", "aa55read", "aa55write", "aa55wmulti"])
         if op == "aa55":
             p, t = rnd.choice([("010200", "0182"), ("010600", "0186"), ("010900", "0189")])
-            cmd = {"op": "aa55", "payload": p, "rtype": t, "blocklen": rnd.choice([0, 1, 8, 63, 64, 86, 142, 255])}
+            cmd = {"op": "aa55", "payload": p, "rtype": t, "blocklen": rnd.choice([0, 1, 8, 63, 64, 86, 142, 255, 254, 253]),
+                   "fill": rnd.choice([None, None, "ff", "high"])}
         elif op == "aa55read":
             cmd = {"op": "aa55read", "reg": rnd.randrange(60000), "count": rnd.choice([1, 2, 4, 6, 60])}
         elif op == "aa55write":
@@ -206,7 +207,11 @@ def simplify(case):
     return out
 
 
-def _block(n, seed):
+def _block(n, seed, fill=None):
+    if fill == "ff":
+        return b"\xff" * n
+    if fill == "high":
+        return bytes((0x80 | ((j * 37 + seed) & 0x7F)) for j in range(n))
     return bytes(((j * 37 + seed * 11 + 5) & 0x3F) for j in range(n))
 
 
@@ -218,13 +223,13 @@ def run_case(case):
     dev = SimInverter(mode="file", seed=7)
     cmd = case["cmd"]
     if cmd["op"] == "aa55":
-        dev.blocks[int(cmd["payload"][:4], 16)] = _block(cmd["blocklen"], 3)
+        dev.blocks[int(cmd["payload"][:4], 16)] = _block(cmd["blocklen"], 3, cmd.get("fill"))
     world.net.add_device(C.HOST, C.port_of(tr), dev)
     proto = C.make_protocol(tr, tau, r, case["keep_alive"], case["comm_addr"])
     state = {}
 
     async def main():
-        state["rec"] = await C.do_execute(world, proto, {k: v for k, v in cmd.items() if k != "blocklen"}, "req")
+        state["rec"] = await C.do_execute(world, proto, {k: v for k, v in cmd.items() if k not in ("blocklen", "fill")}, "req")
 
     status, _ = C.run_world(world, main())
     net = world.net
